@@ -242,15 +242,15 @@ class PEval:
             env[pl["l"]] = None
 
     # ------------------------------------------------------------------ paths
-    def run(self, start, env, stop=(), watch=()):
+    def run(self, start, env, stop=(), watch=(), unroll=False):
         """all paths from block `start` (environment env) to a block in `stop` / a return.
         returns [{"events": [...], "env": {...}, "end": block | 'return' | 'diverge'}]"""
         fn = self.fn
         out = []
-        work = [(start, dict(env), [], frozenset())]
+        work = [(start, dict(env), [], frozenset(), 0, {})]
         steps = 0
         while work:
-            b, env, events, seen = work.pop()
+            b, env, events, seen, forks, vforks = work.pop()
             while True:
                 steps += 1
                 if steps > self.limit * 50 or len(out) > self.limit:
@@ -258,10 +258,13 @@ class PEval:
                 if b in stop and events is not None and (b != start or seen):
                     out.append({"events": events, "env": env, "end": b})
                     break
-                if b in seen:
+                if b in seen and not (unroll and vforks.get(b) == forks):
+                    # (unroll: a block reached again with no undecided branch in between is a loop whose every test was
+                    # decided by known values, `for _ in 0..4`: it is run on; the step limit bounds it)
                     out.append({"events": events, "env": env, "end": ("loop", b)})
                     break
                 seen = seen | {b}
+                vforks[b] = forks
                 blk = fn.blocks[b]
                 for st in blk["s"]:
                     self.assign(env, st["d"], self.rvalue(env, st["r"]), events, watch, b)
@@ -310,13 +313,33 @@ class PEval:
                     if t["otherwise"] not in dsts:
                         dsts.append(t["otherwise"])
                     dsts = [d for d in dsts if fn.blocks[d]["t"]["k"] != "unreachable" or fn.blocks[d]["s"]]
+                    if len(dsts) > 1:
+                        forks += 1
                     for d in dsts[1:]:
-                        work.append((d, dict(env), list(events), seen))
+                        work.append((d, dict(env), list(events), seen, forks, dict(vforks)))
                     b = dsts[0]
                     continue
                 break
         return out
 
+
+
+def range_hook(pe, env, t, argvals):
+    """call_hook modelling `for _ in a..b` over known bounds: into_iter is the identity, next steps the range"""
+    f = t.get("decl") or t["f"]
+    nm = f.rsplit("::", 1)[-1]
+    if nm == "into_iter" and argvals and argvals[0] is not None and argvals[0][0] == "agg" and "Range" in argvals[0][1]:
+        return argvals[0]
+    if nm == "next" and "ange" in (f + t["f"]) and argvals and argvals[0] is not None and argvals[0][0] == "ref":
+        pl = argvals[0][1]
+        v = pe.read_place(env, pl)
+        if v is not None and v[0] == "agg" and "Range" in v[1] and len(v[2]) == 2 and all(x is not None and x[0] == "c" for x in v[2]) and not pl["p"]:
+            s_, e_ = v[2][0][1], v[2][1][1]
+            if s_ < e_:
+                env[pl["l"]] = ("agg", v[1], [C(s_ + 1), C(e_)])
+                return ("agg", "core::option::Option::Some", [C(s_)])
+            return ("agg", "core::option::Option::None", [])
+    return NotImplemented
 
 
 _inl_cache = {}
